@@ -99,6 +99,18 @@ def fam_feature_setting_value(q):
         lambda s, g: sorted(v[0] % 65536 for ft in s["_feat"]["feats"] if ft["id"] == 100 for v in ft["settings"]), sorted([0, q % 65536] if -32768 <= q <= 65535 else [-1])
 
 
+def fam_sill_bytes(q):
+    """q languages each setting 60 features: the Sill table (12 + 8 per language + 8 + 8 per setting bytes) addresses the
+    settings of a language by 16-bit offsets"""
+    import string
+    nf = 60
+    feats = "".join('f%d { id = %d; name.1033 = string("F%d"); settings { a%d { value = 0; name.1033 = string("x"); } b%d { value = 1; name.1033 = string("y"); } } default = a%d; }\n'
+                    % (i, 100 + i, i, i, i, i) for i in range(nf))
+    codes = [a + b for a in string.ascii_lowercase for b in string.ascii_lowercase][:q]
+    langs = "".join('l%d { languages = ("%s"); %s };\n' % (j, codes[j], "; ".join("f%d = b%d" % (i, i) for i in range(nf))) for j in range(q))
+    return HDR + GT + "table(feature)\n" + feats + "endtable;\ntable(language)\n" + langs + "endtable;\ntable(sub) cA > cB; endtable;\n", ["NOENGINE"], None, None
+
+
 def fam_features(q):
     feats = "".join('f%d { id = %d; name.1033 = string("F%d"); settings { a%d { value = 0; name.1033 = string("x"); } } default = a%d; }\n' % (i, 100 + i, i, i, i) for i in range(q))
     return HDR + GT + "table(feature)\n" + feats + "endtable;\ntable(sub) cA > cB; endtable;\n", [], None, q
@@ -193,6 +205,7 @@ FAMILIES = [
     ("extra_ascent_descent", fam_extra_ascent, [65534, 65535, 65536, 131070], 120),
     ("feature_setting_value", fam_feature_setting_value, [65534, 65535, 65536, 70000], 120),
     ("feature_setting_value_negative", lambda q: fam_feature_setting_value(-q), [32767, 32768, 32769, 70000], 120),
+    ("sill_table_bytes", fam_sill_bytes, [100, 133, 135, 140, 260], 120),
     ("features", fam_features, [62, 63, 64, 65, 200], 120),
     ("user_attr_index", fam_userattr, [15, 16, 17, 64], 120),
     ("glyph_attrs", fam_gattrs, [250, 252, 253, 256, 300], 120),
